@@ -35,6 +35,9 @@ Aggregate == /\ phase = "aggregate"
              /\ UNCHANGED <<keys, tweaks, k1, k2, adaptor, pubnonces, psigs>>
 Next == Round1 \/ Round2 \/ Aggregate \/ (phase \in {"done", "refused"} /\ UNCHANGED vars)
 Spec == Init /\ [][Next]_vars
+\* liveness: when every party takes its step (weak fairness), the session ends: it is done, or refused as BIP327 allows
+FairSpec == Spec /\ WF_vars(Round1) /\ WF_vars(Round2) /\ WF_vars(Aggregate)
+Completes == <>(phase \in {"done", "refused"})
 \* (on 31 points the honest nonces sum to infinity now and then -- probability 2^-256 on secp256k1 -- and BIP327 lets that session fail)
 EveryPartialVerifies == (phase \in {"aggregate", "done"} /\ ~Ses.degenerate) =>
       \A j \in 1..NSigners : PartialVerify(C, HFT, Pks, Ses, psigs[j], pubnonces[j], Pks[j])
